@@ -201,7 +201,8 @@ def rule_exception_identity(rep: Report, m: Fn, rule: str = "B3-subscribe-branch
     for s in sites(m):
         n = s.node
         if isinstance(n, (ast.If, ast.IfExp, ast.While)):
-            for e, pol in atoms(n.test, True):
+            from ..rules import effective_test
+            for e, pol in atoms(effective_test(m, n.test), True):
                 xs = [e] if not isinstance(e, ast.BoolOp) else e.values
                 for x in xs:
                     while isinstance(x, ast.UnaryOp) and isinstance(x.op, ast.Not):
